@@ -21,6 +21,7 @@ import (
 	"io"
 	"os"
 	"os/exec"
+	"path/filepath"
 	"strings"
 	"time"
 
@@ -223,14 +224,52 @@ type Runner struct {
 	// replaced after MaxUnits scans to bound its address space.
 	MaxUnits int
 	served   int
+	// Exe is the worker binary ("" = this executable); a second build of the same harness (e.g.
+	// with CGO_ENABLED=0, so that osmpbf inflates with compress/zlib instead of czlib).
+	Exe string
+}
+
+// BuildVariant builds ./cmd/<name> of the harness module once more with extra environment (e.g.
+// CGO_ENABLED=0) into outdir and returns the path.  It honours the scratch go.mod the orchestrator
+// writes when the check runs against a copy of the repository.
+func BuildVariant(name, outdir, suffix string, env ...string) (string, error) {
+	vdir := os.Getenv("VERIF_DIR")
+	if vdir == "" {
+		vdir = "/verif"
+	}
+	abs, err := filepath.Abs(outdir)
+	if err != nil {
+		return "", err
+	}
+	exe := filepath.Join(abs, "vh_"+suffix)
+	args := []string{"build", "-tags", "verif"}
+	for _, d := range []string{abs, filepath.Dir(abs)} {
+		if _, err := os.Stat(filepath.Join(d, "go.mod")); err == nil {
+			args = append(args, "-modfile="+filepath.Join(d, "go.mod"))
+			break
+		}
+	}
+	args = append(args, "-o", exe, "./cmd/"+name)
+	cmd := exec.Command("go", args...)
+	cmd.Dir = filepath.Join(vdir, "harness")
+	cmd.Env = append(os.Environ(), env...)
+	out, err := cmd.CombinedOutput()
+	if err != nil {
+		return "", fmt.Errorf("go %s: %v: %s", strings.Join(args, " "), err, out)
+	}
+	return exe, nil
 }
 
 func NewRunner() *Runner { return &Runner{Timeout: 20 * time.Second, MaxUnits: 400} }
 
 func (r *Runner) start() error {
-	exe, err := os.Executable()
-	if err != nil {
-		return err
+	exe := r.Exe
+	if exe == "" {
+		var err error
+		exe, err = os.Executable()
+		if err != nil {
+			return err
+		}
 	}
 	cmd := exec.Command(exe)
 	cmd.Env = append(os.Environ(), "PBFRUN_WORKER=1", "GOTRACEBACK=single", "GOGC=off")
